@@ -150,28 +150,37 @@ def build_all(clean=False):
     return res
 
 
+def props_files(pid):
+    """Props/<pid>.v and its continuation files Props/<pid>_*.v (relative to the Coq root)"""
+    rels = [os.path.join("theories", "Props", pid + ".v")]
+    rels += sorted(os.path.relpath(f, COQ) for f in glob.glob(os.path.join(COQ, "theories", "Props", pid + "_*.v")))
+    return rels
+
+
 def check_props_file(pid):
-    """Re-compile Props/<pid>.v on its own; returns (rc, output, n_obligations, axioms)."""
-    rel = os.path.join("theories", "Props", pid + ".v")
-    path = os.path.join(COQ, rel)
-    if not os.path.exists(path):
-        return 1, "missing " + rel, 0, []
-    src = open(path).read()
-    n = len(re.findall(r"^\s*(Theorem|Lemma|Example|Corollary|Fact|Proposition)\b", src, re.M))
-    with Lock():
-        rc, out = sh("timeout 900 coqc -q -Q theories BFS -w -notation-overridden,-deprecated-hint-without-locality %s 2>&1" % rel,
-                     cwd=COQ, timeout=1000)
-    axioms = []
-    # Print Assumptions output: "Closed under the global context" or "Axioms:\n name : type"
-    blocks = re.split(r"\n(?=Closed under the global context|Axioms:)", "\n" + out)
-    for b in blocks:
-        if b.startswith("Axioms:"):
-            for line in b.splitlines()[1:]:
-                m = re.match(r"^([A-Za-z_][\w.']*)\s*:", line)
-                if m:
-                    axioms.append(m.group(1))
-    closed = out.count("Closed under the global context")
-    return rc, out, n, sorted(set(axioms)), closed
+    """Re-compile Props/<pid>.v (and Props/<pid>_*.v) on its own; returns (rc, output, n_obligations, axioms, closed)."""
+    rc_all, out_all, n, axioms, closed = 0, "", 0, [], 0
+    for rel in props_files(pid):
+        path = os.path.join(COQ, rel)
+        if not os.path.exists(path):
+            return 1, "missing " + rel, 0, [], 0
+        src = open(path).read()
+        n += len(re.findall(r"^\s*(Theorem|Lemma|Example|Corollary|Fact|Proposition)\b", src, re.M))
+        with Lock():
+            rc, out = sh("timeout 900 coqc -q -Q theories BFS -w -notation-overridden,-deprecated-hint-without-locality %s 2>&1" % rel,
+                         cwd=COQ, timeout=1000)
+        rc_all = rc_all or rc
+        out_all += out
+        # Print Assumptions output: "Closed under the global context" or "Axioms:\n name : type"
+        blocks = re.split(r"\n(?=Closed under the global context|Axioms:)", "\n" + out)
+        for b in blocks:
+            if b.startswith("Axioms:"):
+                for line in b.splitlines()[1:]:
+                    m = re.match(r"^([A-Za-z_][\w.']*)\s*:", line)
+                    if m:
+                        axioms.append(m.group(1))
+        closed += out.count("Closed under the global context")
+    return rc_all, out_all, n, sorted(set(axioms)), closed
 
 
 def coqchk_props(pid):
@@ -187,7 +196,7 @@ def coqchk_props(pid):
         txt = open(cache).read()
         return (0 if txt.startswith("OK") else 1), txt
     with Lock("coqchk"):
-        rc, out = sh("timeout 3000 coqchk -silent -o -Q theories BFS BFS.Props.%s 2>&1" % pid, cwd=COQ, timeout=3100)
+        rc, out = sh("timeout 3000 coqchk -silent -o -Q theories BFS %s 2>&1" % " ".join("BFS.Props." + os.path.basename(r)[:-2] for r in props_files(pid)), cwd=COQ, timeout=3100)
     ax = re.search(r"\* Axioms:(.*?)\n\s*\n\* Constants", out, re.S)
     summary = ("OK " if rc == 0 else "FAILED ") + "axioms: " + (" ".join(ax.group(1).split()) if ax else "?")
     if rc != 0:
